@@ -49,6 +49,9 @@ impl E2Run for ArpRes {
         let arp_frames: Arc<Mutex<Vec<ArpFrame>>> = Arc::new(Mutex::new(vec![]));
         // claims[ip] = (machine, mac on the network)
         let claims: Arc<Mutex<BTreeMap<[u8; 4], (usize, u64)>>> = Arc::new(Mutex::new(BTreeMap::new()));
+        // (pattern mode?, requests lost, replies lost) of this run's loss plan
+        let pattern: Arc<Mutex<(bool, u32, u32)>> = Arc::new(Mutex::new((false, 0, 0)));
+        let p2 = pattern.clone();
         let (r2, f2, c2) = (results.clone(), arp_frames.clone(), claims.clone());
         let thorough = opts.tier == Tier::Thorough;
         let (status, state) = sim::run_sim(case, default_cfg(), move || async move {
@@ -61,6 +64,7 @@ impl E2Run for ArpRes {
             let random_loss_pm = if mode == 3 || thorough { *[0u64, 100, 300, 600].get(sim::choose(4) as usize).unwrap() } else { 0 };
             let delay_pm = if mode >= 2 { 500 } else { 0 };
             let dup_pm = if mode == 3 { 150 } else { 0 };
+            *p2.lock().unwrap() = (mode <= 2 && random_loss_pm == 0, k_req, m_rep);
             let arp_type = TypeId::of::<Arp>();
             let frames_log = f2.clone();
             let mut req_seen: BTreeMap<u64, u32> = BTreeMap::new();
@@ -283,13 +287,24 @@ impl E2Run for ArpRes {
                 }
                 (None, Some((om, _))) => {
                     out.count("resolved_err_although_claimed");
+                    // the loss plan "first k requests, then m replies" costs one machine at most
+                    // k+m exchanges: with k+m <= 9 some exchange of the 10-try budget gets through
+                    let (is_pattern, k, m) = *pattern.lock().unwrap();
+                    if is_pattern && k + m <= 9 && *om != r.machine {
+                        out.violate(Violation::new(
+                            "resolution-failed",
+                            "within-the-retry-budget",
+                            format!("machine {} failed to resolve {:?} although the network only lost its first {k} requests and the first {m} replies: an exchange of the 10-try budget would have got through", r.machine, r.effective),
+                        ));
+                    }
                     // must succeed when an exchange of this resolver got through in time
                     let my_mac = claims.get(&r.local).map(|c| c.1).unwrap_or(u64::MAX);
                     let req_through = frames.iter().any(|f| {
-                        f.request && f.sender_mac == my_mac && f.target_ip == r.effective && f.copies > 0 && f.time_ms >= r.start_ms && f.time_ms <= r.start_ms + 1600
+                        f.request && f.sender_mac == my_mac && f.target_ip == r.effective && f.copies > 0 && f.time_ms >= r.start_ms && f.time_ms <= r.start_ms + 1800
                     });
                     let rep_through = frames.iter().any(|f| {
-                        !f.request && f.sender_ip == r.effective && f.dest == Some(my_mac) && f.copies > 0 && f.time_ms >= r.start_ms && f.time_ms <= r.start_ms + 1700
+                        // (frame delays are at most 90 ms: a reply sent by 1900 ms is there before the 2000 ms deadline)
+                        !f.request && f.sender_ip == r.effective && f.dest == Some(my_mac) && f.copies > 0 && f.time_ms >= r.start_ms && f.time_ms <= r.start_ms + 1900
                     });
                     if req_through && rep_through && *om != r.machine {
                         out.violate(Violation::new(
